@@ -171,6 +171,10 @@ Definition removeable (m : mode) (filename_given : bool) : bool :=
   | MOverwrite => true
   end.
 
+(* pt_tempo_compute / PtTempo(process_tensor_file=<name>, overwrite=..., unique=...): the mode the file is created in
+   depends on the overwrite flag only *)
+Definition api_mode (unique overwrite : bool) : mode := if overwrite then MOverwrite else MWrite.
+
 End PTFile.
 
 
